@@ -51,6 +51,7 @@ type Val struct {
 	Class string // "" unknown
 	Int   *int64
 	Not   string // integers the value is known to differ from (";a;b;"), learnt from != outcomes
+	Lo    *int64 // a lower bound of an integer whose exact value is not known (a loop counter)
 	Sym   string // provenance label set by rules (e.g. "upstream#1")
 }
 
@@ -74,6 +75,17 @@ func (v Val) String() string {
 
 func intVal(i int64) Val { return Val{Int: &i, N: NNon} }
 
+// lower returns the best known lower bound of an integer value.
+func (v Val) lower() (int64, bool) {
+	if v.Int != nil {
+		return *v.Int, true
+	}
+	if v.Lo != nil {
+		return *v.Lo, true
+	}
+	return 0, false
+}
+
 type Event struct {
 	Kind string
 	Arg  string
@@ -92,6 +104,7 @@ type State struct {
 	V        map[any]Val
 	Alias    map[ssa.Value]ssa.Value // free variable -> captured cell; parameter -> argument
 	Args     map[ssa.Value]ssa.Value // parameter of an inlined callee -> the argument value of this call (identity, any type)
+	Sel      map[*ssa.Phi]ssa.Value  // interface-typed phi -> the incoming value it took on this path (identity)
 	Volatile map[any]bool            // cells that may be written behind the explorer's back
 	Fresh    map[ssa.Value]bool      // allocations executed on this path (unwritten fields hold zero values)
 	Visit    map[*ssa.BasicBlock]int
@@ -103,11 +116,11 @@ type State struct {
 }
 
 func NewState() *State {
-	return &State{V: map[any]Val{}, Alias: map[ssa.Value]ssa.Value{}, Args: map[ssa.Value]ssa.Value{}, Volatile: map[any]bool{}, Fresh: map[ssa.Value]bool{}, Visit: map[*ssa.BasicBlock]int{}, Flags: map[string]int{}}
+	return &State{V: map[any]Val{}, Alias: map[ssa.Value]ssa.Value{}, Args: map[ssa.Value]ssa.Value{}, Sel: map[*ssa.Phi]ssa.Value{}, Volatile: map[any]bool{}, Fresh: map[ssa.Value]bool{}, Visit: map[*ssa.BasicBlock]int{}, Flags: map[string]int{}}
 }
 
 func (s *State) Clone() *State {
-	c := &State{V: make(map[any]Val, len(s.V)), Alias: make(map[ssa.Value]ssa.Value, len(s.Alias)), Args: make(map[ssa.Value]ssa.Value, len(s.Args)), Volatile: make(map[any]bool, len(s.Volatile)),
+	c := &State{V: make(map[any]Val, len(s.V)), Alias: make(map[ssa.Value]ssa.Value, len(s.Alias)), Args: make(map[ssa.Value]ssa.Value, len(s.Args)), Sel: make(map[*ssa.Phi]ssa.Value, len(s.Sel)), Volatile: make(map[any]bool, len(s.Volatile)),
 		Fresh: make(map[ssa.Value]bool, len(s.Fresh)), Visit: make(map[*ssa.BasicBlock]int, len(s.Visit)), Flags: make(map[string]int, len(s.Flags))}
 	for k, v := range s.Fresh {
 		c.Fresh[k] = v
@@ -120,6 +133,9 @@ func (s *State) Clone() *State {
 	}
 	for k, v := range s.Args {
 		c.Args[k] = v
+	}
+	for k, v := range s.Sel {
+		c.Sel[k] = v
 	}
 	for k, v := range s.Volatile {
 		c.Volatile[k] = v
@@ -355,6 +371,23 @@ func (s *State) Eval(v ssa.Value) Val {
 		if b := s.decide(x); b != BUnk {
 			return Val{B: b}
 		}
+		// a counter that only grows: x + c keeps a lower bound (never an exact value, so loop
+		// conditions stay undecided and every exit of a loop is still explored)
+		if (x.Op == token.ADD || x.Op == token.SUB) && isIntegerType(x.Type()) && !isUnsigned(x.Type()) {
+			a, b := s.Eval(x.X), s.Eval(x.Y)
+			const lim = 1 << 30
+			if lo, ok := a.lower(); ok && b.Int != nil && lo > -lim && lo < lim && *b.Int > -lim && *b.Int < lim {
+				r := lo + *b.Int
+				if x.Op == token.SUB {
+					r = lo - *b.Int
+				}
+				return Val{Lo: &r}
+			}
+			if lo, ok := b.lower(); ok && x.Op == token.ADD && a.Int != nil && lo > -lim && lo < lim && *a.Int > -lim && *a.Int < lim {
+				r := lo + *a.Int
+				return Val{Lo: &r}
+			}
+		}
 	case *ssa.Extract:
 		if tv, ok := s.V[tkey{x.Tuple, x.Index}]; ok {
 			return tv
@@ -485,6 +518,12 @@ func Explore(fn *ssa.Function, b *ssa.BasicBlock, idx int, pred *ssa.BasicBlock,
 			for i, p := range b.Preds {
 				if p == pred {
 					phis[phi] = st.Eval(phi.Edges[i])
+					if types.IsInterface(phi.Type()) {
+						if st.Sel == nil {
+							st.Sel = map[*ssa.Phi]ssa.Value{}
+						}
+						st.Sel[phi] = phi.Edges[i]
+					}
 				}
 			}
 		}
@@ -654,6 +693,15 @@ func Explore(fn *ssa.Function, b *ssa.BasicBlock, idx int, pred *ssa.BasicBlock,
 				}
 			}
 			markEscapes(st, x)
+			// errors.As evaluated ahead of its use (in a helper that returns its verdict, or hoisted
+			// into a variable): record the verdict now, from what is known about the error's class
+			if name := callee(x); name == "github.com/pkg/errors.As" || name == "errors.As" {
+				if bv := st.decide(x); bv != BUnk {
+					st.V[x] = Val{B: bv}
+				} else {
+					delete(st.V, x)
+				}
+			}
 			if h.Call != nil {
 				if res := h.Call(st, x); res != nil {
 					bindResults(st, x, res)
@@ -966,6 +1014,35 @@ func (st *State) decide(cond ssa.Value) Boolv {
 					return b2(*x.Int >= *y.Int)
 				}
 			}
+			// lower bound against a constant
+			if !isUnsigned(c.X.Type()) {
+				op, lo, k, have := c.Op, int64(0), int64(0), false
+				if x.Int == nil && x.Lo != nil && y.Int != nil {
+					lo, k, have = *x.Lo, *y.Int, true
+				} else if y.Int == nil && y.Lo != nil && x.Int != nil {
+					lo, k, have, op = *y.Lo, *x.Int, true, mirrorOp(c.Op)
+				}
+				if have {
+					switch op { // value op k, value >= lo
+					case token.GEQ:
+						if lo >= k {
+							return BTrue
+						}
+					case token.GTR:
+						if lo > k {
+							return BTrue
+						}
+					case token.LSS:
+						if lo >= k {
+							return BFalse
+						}
+					case token.LEQ:
+						if lo > k {
+							return BFalse
+						}
+					}
+				}
+			}
 		}
 	case *ssa.UnOp:
 		if c.Op == token.NOT {
@@ -1275,4 +1352,27 @@ func globalLoaded(v ssa.Value) string {
 		return ""
 	}
 	return g.Pkg.Pkg.Name() + "." + g.Name()
+}
+
+// assumeDominating records, for an exploration that starts in the middle of a function at block
+// b, the outcomes of the branches every path into b has taken last: a dominator d that ends in
+// an If contributes its condition when b cannot be reached from the other successor without
+// passing d again.  The operands of such a condition are defined in blocks that dominate d, so
+// none of them is re-evaluated between the last visit of d and the arrival in b.
+func (st *State) assumeDominating(b *ssa.BasicBlock) {
+	for d := b.Idom(); d != nil; d = d.Idom() {
+		iff := lastIf(d)
+		if iff == nil || len(d.Succs) != 2 || d.Succs[0] == d.Succs[1] {
+			continue
+		}
+		cut := map[edge]bool{{d, d.Succs[0]}: true, {d, d.Succs[1]}: true}
+		r0 := d.Succs[0] == b || reachableFrom(d.Succs[0], cut)[b]
+		r1 := d.Succs[1] == b || reachableFrom(d.Succs[1], cut)[b]
+		switch {
+		case r0 && !r1:
+			st.assume(iff.Cond, true)
+		case r1 && !r0:
+			st.assume(iff.Cond, false)
+		}
+	}
 }
